@@ -24,7 +24,8 @@ ASSUMPTIONS = [
     "histories of <= 3 calls; contexts from {none, {'x':'A'}, {'x':'B'}}; three ways a task can depend on the context: a nested child "
     "task reads it, a defaulted argument get_context(...) reads it, a defaulted argument that is itself a task call reads it",
     "arrangements: parallel list in one execution, seq (one after the other) in one execution, successive executions on one "
-    "backend; the context-reading task with check_valid full or shallow",
+    "backend; the context-reading task with check_valid full or shallow; executions run with the backend cache or with "
+    "run(cache=False) (every job CSE-scoped)",
     "stock thread executor, real in-memory SQLite backend (no stub); the order in which parallel calls complete is not controlled",
     "c05_kernel: S4 FakeSession (the real clause objects evaluated over symbolic rows); get_call_cache always finds the result, "
     "get_eval_cache never; at most one context tag per call node",
@@ -104,7 +105,7 @@ def _is_listed_class(calls, arrange, shallow):
     return False
 
 
-def run_history(calls, arrange, shallow, base_ctx=False):
+def run_history(calls, arrange, shallow, base_ctx=False, nocache=False):
     """calls: list of (kind, ctx).  base_ctx: the execution itself runs under a non-empty context.  Returns (ok, detail)."""
     import logging
     logging.disable(logging.CRITICAL)
@@ -123,6 +124,8 @@ def run_history(calls, arrange, shallow, base_ctx=False):
         return t(salt, i)
     want = [c if c is not None else "none" for (_, c) in calls]
     kw = {"context": {"base": 1}} if base_ctx else {}
+    if nocache:
+        kw["cache"] = False  # every job is CSE-scoped: results are shared within the execution only
     try:
         if arrange == "executions":
             got = [s.run(expr(i, k, c), **kw) for i, (k, c) in enumerate(calls)]
@@ -142,7 +145,7 @@ def c05_history(k: int) -> bool:
     post: _
     """
     def body():
-        n, arrange_i, shallow, kind_mode, base_ctx = SL()
+        n, arrange_i, shallow, kind_mode, base_ctx, nocache = (tuple(SL()) + (0,))[:6]
         arrange = ARRANGE[arrange_i]
         calls = []
         for i in range(n):
@@ -150,7 +153,7 @@ def c05_history(k: int) -> bool:
             calls.append((kind, CTX[choose(len(CTX), "ctx")]))
         if excluded("context-free-call-reuses-context-result") and _is_listed_class(calls, arrange, bool(shallow)):
             return True
-        return native(lambda: run_history(calls, arrange, bool(shallow), bool(base_ctx))[0])
+        return native(lambda: run_history(calls, arrange, bool(shallow), bool(base_ctx), bool(nocache))[0])
     return guard(body, k=k)
 
 
@@ -174,8 +177,8 @@ def c05_kernel(k: int) -> bool:
 
 
 _Q = [(2, a, s, None, 0) for a in range(3) for s in (0, 1)] + [(3, a, s, km, 0) for a in (1, 2) for s in (1,) for km in (0, 1, 2)] \
-    + [(3, 0, 0, 0, 0)] + [(2, a, s, None, 1) for a in range(3) for s in (0, 1)]
-_TT = [(3, a, s, None, b) for a in range(3) for s in (0, 1) for b in (0, 1)]
+    + [(3, 0, 0, 0, 0)] + [(2, a, s, None, 1) for a in range(3) for s in (0, 1)] + [(2, a, 0, None, 0, 1) for a in (0, 1)] + [(3, 1, 0, 0, 0, 1)]
+_TT = [(3, a, s, None, b) for a in range(3) for s in (0, 1) for b in (0, 1)] + [(3, a, s, None, 0, 1) for a in (0, 1) for s in (0, 1)]
 _KT = [(a, b, c) for a in (0, 1) for b in (0, 1, 2) for c in (0, 1, 2)]
 _KQ = [(a, b, c) for (a, b, c) in _KT if a + b + c <= 3]
 CONDITIONS = [
@@ -210,13 +213,15 @@ def replay(cond, args, extra):
         ok, detail, listed = K.ctx_check(case, K.ctx_run_real)
         return (not ok), detail + " (rows written to the real SQLite backend: %r)" % ({k: case[k] for k in ("nodes", "jobs", "tags")},), (
             "context-free-call-reuses-context-result" if (not ok and listed) else None)
-    n, arrange_i, shallow, kind_mode, base_ctx = extra["slice"]
+    n, arrange_i, shallow, kind_mode, base_ctx, nocache = (tuple(extra["slice"]) + (0,))[:6]
     it = iter(extra["choices"])
     calls = []
     for i in range(n):
         kind = KINDS[kind_mode] if kind_mode is not None else KINDS[next(it)[1]]
         calls.append((kind, CTX[next(it)[1]]))
-    ok, detail = run_history(calls, ARRANGE[arrange_i], bool(shallow), bool(base_ctx))
+    ok, detail = run_history(calls, ARRANGE[arrange_i], bool(shallow), bool(base_ctx), bool(nocache))
+    if nocache:
+        detail += " [run(cache=False)]"
     fid = None
     if not ok and _is_listed_class(calls, ARRANGE[arrange_i], bool(shallow)):
         fid = "context-free-call-reuses-context-result"
